@@ -383,7 +383,7 @@ pub fn run_case(c: &LiqCase, stats: &mut Stats) -> Result<(), (String, String)> 
 const RULE: &str = "proptest: 3-bank worlds (collateral / debt / extra bank with generated decimals 0-12, SPL / Token-2022 / transfer-fee mints, weights, Pyth-Switchboard-fixed oracles with confidence; in 35 % of the cases the debt bank's e-mode entry boosts the collateral bank's tag, in 15 % the collateral bank is set reduce-only after the borrow), liquidatee borrows a generated fraction of its borrowing power, collateral price steered so that maintenance health lands at a generated target in {very negative .. slightly negative, 0, positive}, liquidator funded with too little / enough deposit or other collateral, seize amounts absolute / fraction of / exactly around the collateral position, plus bisection to the largest seize amount that still succeeds. Oracle on every success: reference maintenance health (exact rationals, enclosure; on stored and accrued pre-state) was not positive, is not positive afterwards and not worse, no side flips, liquidator initially healthy, and the five book entries equal the enclosure of 95% / 97.5% / 2.5% of q*p_low/p_high (scaled by decimals) with whole tokens to the insurance vault and the fraction to outstanding insurance fees. Non-trivial = a successful liquidation where both prices carry confidence and the two mints have different decimals; rejection classes are counted.";
 
 pub fn run(ctx: &Ctx) -> Report {
-    let cases: u32 = ctx.tier.pick(3000, 150_000);
+    let cases: u32 = ctx.tier.pick(6000, 150_000);
     let mut rep = par_workers(ctx.threads, |wi| {
         let mut rep = Report::new(RULE);
         let strat = case_strategy();
